@@ -19,6 +19,7 @@ package fasthttp
 // only "whatever was reported is a valid prefix" is asserted.
 
 import (
+	"context"
 	"bytes"
 	"fmt"
 	"io"
@@ -227,7 +228,7 @@ type vpC14Hist struct {
 	Pipelined bool     // all units in one Feed (else one at a time, waiting for the server to settle)
 	Plan      []int
 	EOFFirst  bool   // nobytes: client EOF is already there when the server gets the connection
-	End       string // eof | timeout
+	End       string // eof | timeout | shutdown (left idle; Server.Shutdown ends it)
 }
 
 func (h vpC14Hist) String() string {
@@ -447,7 +448,14 @@ func vpC14RunCase(cfg vpC14Cfg, hists []vpC14Hist) (res []vpC14ConnResult, fail 
 		wires = append(wires, w)
 		res = append(res, vpC14ConnResult{Hist: h, Starts: starts, Blocker: blocker})
 	}
+	var held []*vpWire // idle keep-alive connections that stay open until Server.Shutdown
 	for _, h := range hists {
+		if h.End == "shutdown" && cfg.ViaServe {
+			w, starts, _ := e.runConn(h, true)
+			add(h, w, starts, false)
+			held = append(held, w)
+			continue
+		}
 		if h.Kind == "rejected" {
 			// blocker connection: one request, then stays idle and occupies the only worker / concurrency slot
 			bh := vpC14Hist{Kind: "requests", Units: [][]byte{[]byte("GET /blocker HTTP/1.1\r\nHost: vp.example\r\n\r\n")}, End: "eof"}
@@ -474,6 +482,19 @@ func vpC14RunCase(cfg vpC14Cfg, hists []vpC14Hist) (res []vpC14ConnResult, fail 
 	}
 	// stop everything
 	if cfg.ViaServe {
+		if len(held) > 0 {
+			// graceful shutdown with idle keep-alive connections open: the server closes them itself
+			sctx, cancel := context.WithTimeout(context.Background(), vpC14Wait)
+			if err := e.srv.ShutdownWithContext(sctx); err != nil {
+				vpNote("Shutdown with %d idle connections returned %v (not judged here)", len(held), err)
+			}
+			cancel()
+			for _, w := range held {
+				if !e.rec.waitTerminal(w, vpC14Wait) && fail == "" {
+					fail = "idle keep-alive connection: no terminal state within 20s after Shutdown"
+				}
+			}
+		}
 		e.ln.Close()
 		select {
 		case <-serveDone:
@@ -611,6 +632,9 @@ func vpC14GenHist(t *rapid.T, lb string, kind string) vpC14Hist {
 		h.Units = append(h.Units, full[:cut])
 	case "requests":
 		genReqs(1, 3, true)
+	case "shutdown":
+		h.End = "shutdown"
+		genReqs(1, 3, false)
 	case "malformed":
 		genReqs(0, 2, false)
 		h.Units = append(h.Units, []byte(rapid.SampledFrom(vpC14Malformed).Draw(t, lb+"malformed")))
@@ -693,7 +717,7 @@ func vpC14Probes() {
 	})
 }
 
-var vpC14Kinds = []string{"nobytes", "partial", "requests", "requests", "malformed", "timeout", "hijack", "hijack", "rejected"}
+var vpC14Kinds = []string{"nobytes", "partial", "requests", "requests", "malformed", "timeout", "hijack", "hijack", "rejected", "shutdown"}
 
 func TestVP_C14_ConnState(t *testing.T) {
 	vpC14Probes()
@@ -709,6 +733,16 @@ func TestVP_C14_ConnState(t *testing.T) {
 			kind := rapid.SampledFrom(vpC14Kinds).Draw(t, fmt.Sprintf("c%d.kind", i))
 			if kind == "rejected" && i != n-1 {
 				kind = "requests" // the rejection scenario needs Concurrency=1 and is kept last
+			}
+			if kind == "rejected" {
+				for j := range hists { // no connection may be left open in front of the rejection scenario
+					if hists[j].End == "shutdown" {
+						hists[j].End, hists[j].Kind = "eof", "requests"
+					}
+				}
+			}
+			if kind == "shutdown" && !cfg.ViaServe {
+				kind = "requests" // Shutdown only reaches connections accepted by Serve
 			}
 			hists = append(hists, vpC14GenHist(t, fmt.Sprintf("c%d.", i), kind))
 			if kind == "timeout" {
